@@ -123,7 +123,8 @@ def replay_listing(inp):
             add = inp.get('additional')
             try:
                 if inp['function'] == 'extract_parameters':
-                    fn(input=src, output_prefix=os.path.join(d, 'x_'), output_suffix='.txt', select_format=sel)
+                    kwp = {'parameters': list(inp['parameters'])} if inp.get('parameters') else {}
+                    fn(input=src, output_prefix=os.path.join(d, 'x_'), output_suffix='.txt', select_format=sel, **kwp)
                     out = os.path.join(d, 'x_src_a.txt')
                 elif add:
                     fn(src, out, select_format=sel, additional=add)
@@ -146,9 +147,20 @@ def replay_listing(inp):
                         return True, {'row': i, 'line': ln, 'expected_parameters': want}
             elif inp['function'] == 'extract_parameters':
                 rows = lines[1:1 + nsel]
+                plist = inp.get('parameters')
                 for i, ln in enumerate(rows):
                     tk = ln.split()
                     m = ranked[i]
+                    if plist:
+                        if lines[0].split()[3:] != list(plist):
+                            return True, {'header': lines[0]}
+                        for q, pn in enumerate(plist):
+                            if pn == 'MODEL_NAME':
+                                if tk[3 + q] != names[m]:
+                                    return True, {'row': i, 'line': ln, 'column': pn}
+                            elif not np.allclose(float(tk[3 + q]), inp[pn][m], rtol=2e-3, atol=1e-300):
+                                return True, {'row': i, 'line': ln, 'column': pn, 'expected': inp[pn][m]}
+                        continue
                     if tk[3] != names[m] or not np.allclose([float(x) for x in tk[4:4 + len(PARS)]], [inp[p][m] for p in PARS], rtol=2e-3):
                         return True, {'row': i, 'line': ln}
             elif nsel > 0:
@@ -166,7 +178,7 @@ def replay_listing(inp):
         shutil.rmtree(d, ignore_errors=True)
 
 
-def h_listing(function, nm, ranked, selectors, forms=('file', 'object', 'list'), with_additional=False):
+def h_listing(function, nm, ranked, selectors, forms=('file', 'object', 'list'), with_additional=False, parameters=None):
     def run(part):
         std_assumptions(part)
         part.bounds = {'function': function, 'models': nm, 'ranking': list(ranked), 'parameter_file_rows': 'all %d! permutations' % nm,
@@ -210,8 +222,10 @@ def h_listing(function, nm, ranked, selectors, forms=('file', 'object', 'list'),
                         c.printing = True
                         try:
                             if function == 'extract_parameters':
-                                fn(input=src, output_prefix='/out/x_', output_suffix='.txt', select_format=sel_)
+                                kwp = {'parameters': list(parameters)} if parameters else {}
+                                fn(input=src, output_prefix='/out/x_', output_suffix='.txt', select_format=sel_, **kwp)
                                 rec['text'] = rf.fs.files['/out/x_src_a.txt']
+                                rec['parameters'] = parameters
                             else:
                                 kw = {'additional': add} if add else {}
                                 fn(src, '/out/list.txt', select_format=sel_, **kw)
@@ -253,6 +267,7 @@ def check_listing(c, cl, function, rec, ranked):
         return {'function': function, 'names': names, 'perm': list(rec['perm']), 'ranked': list(ranked), 'form': rec['form'],
                 'select': [sel[0], mval(m, sel[1]) if sel[1] is not None else None],
                 'additional': None if not rec['add'] else {k: {n: mval(m, x) for n, x in v.items()} for k, v in rec['add'].items()},
+                'parameters': None if not rec.get('parameters') else list(rec['parameters']),
                 'chi2': mval(m, rec['chi2']), 'av': mval(m, rec['av']), 'sc': mval(m, rec['sc']), **{p: mval(m, cols[p]) for p in PARS}}
     if function == 'write_parameters':
         head = lines[3].split()
@@ -271,10 +286,17 @@ def check_listing(c, cl, function, rec, ranked):
         n_fits = len(data)
         g = [selected_count_ok(sel, rec, n_fits)]
         want = expect_rows(fake, names, cols, min(n_fits, n))
+        plist = rec.get('parameters')
+        if plist:
+            g.append(z3.BoolVal(lines[0].split()[3:] == list(plist)))      # header names the requested columns in the requested order
         for i, ln in enumerate(data[:n]):
             tk = parse_numbers(c, ln)
             w = want[i]
-            exp = [w[1], w[2], w[3], w[0]] + w[4:]
+            if plist:
+                byname = dict(zip(('MODEL_NAME',) + PARS, [w[0]] + w[4:]))
+                exp = [w[1], w[2], w[3]] + [byname[p] for p in plist]
+            else:
+                exp = [w[1], w[2], w[3], w[0]] + w[4:]
             g += [same_tok(a, b) for a, b in zip(tk, exp)] + [z3.BoolVal(len(tk) == len(exp))]
         cl.claim(c, conj(g), 'P1 ' + label, inputs, replay_listing)
     else:
@@ -325,6 +347,10 @@ def configs(tier, seed):
         cfgs.append(Config('%s nm=3 ranking=(1,2,0) select F' % function, h_listing(function, 3, (1, 2, 0), [('F', None)], forms=('object',)), 3000))
         if not q:
             cfgs.append(Config('%s nm=4 ranking=(3,1,0,2)' % function, h_listing(function, 4, (3, 1, 0, 2), [('N', 3), ('A', None)], forms=('file',)), 6000))
+    cfgs.append(Config('extract_parameters nm=2 parameters=[AGE, MASS] (not the file order)',
+                       h_listing('extract_parameters', 2, (0, 1), [('A', None)], forms=('object',), parameters=('AGE', 'MASS')), 1500))
+    cfgs.append(Config('extract_parameters nm=3 parameters=[AGE, MODEL_NAME]',
+                       h_listing('extract_parameters', 3, (2, 0, 1), [('N', 2)], forms=('file',), parameters=('AGE', 'MODEL_NAME')), 1500))
     for function in ('write_parameters', 'write_parameter_ranges'):
         cfgs.append(Config('%s nm=2 additional parameters ranking=(1,0)' % function, h_listing(function, 2, (1, 0), [('A', None)], forms=('object',), with_additional=True), 1500))
         cfgs.append(Config('%s nm=2 additional parameters ranking=(0,1)' % function, h_listing(function, 2, (0, 1), [('A', None), ('N', 1)], forms=('object', 'file'), with_additional=True), 1500))
